@@ -5,7 +5,7 @@ import random
 from concretise import NONE, MISSING
 
 NTK, NFK = 3, 3
-NT, NM, NS, NN = 8, 4, 6, 6      # instants, measurements, tag-value ranks, field-value ranks
+NT, NM, NS, NN = 10, 4, 6, 6      # instants, measurements, tag-value ranks, field-value ranks
 
 
 class Gen:
@@ -159,7 +159,12 @@ class Gen:
             a.update({"p": self.point(t), "m": self.meas(0.8), "compact": 1 if r.random() < 0.2 else 0})
         elif op == "insert_multiple":
             n = r.choice([0, 1, 2, 3])
-            a.update({"ps": [self.point() for _ in range(n)], "m": self.meas(0.8), "bad": 1 if r.random() < w.get("bad", 0.15) else 0})
+            ps = [self.point() for _ in range(n)]
+            if tmax_hint is not None and r.random() < 0.5:
+                # a batch that is not earlier than what is stored, but maybe unordered within itself
+                for p in ps:
+                    p["t"] = min(NT - 1, tmax_hint + r.choice([0, 0, 1, 2, 3]))
+            a.update({"ps": ps, "m": self.meas(0.8), "bad": 1 if r.random() < w.get("bad", 0.15) else 0})
         elif op == "remove":
             a.update({"q": self.query(), "m": self.meas()})
         elif op == "drop_measurement":
@@ -185,6 +190,8 @@ class Gen:
                 a = self.write(tmax)
                 if a["op"] == "insert":
                     tmax = max(tmax, a["p"]["t"])
+                if a["op"] == "insert_multiple":
+                    tmax = max([tmax] + [p["t"] for p in a["ps"]])
                 ops.append(a)
         return ops
 
